@@ -407,3 +407,33 @@ pub fn scratch_dir() -> std::path::PathBuf {
     let _ = std::fs::create_dir_all(&p);
     p
 }
+
+/// Greedy delta-debugging style shrinker: deletes chunks of items while
+/// `fails` (same oracle, same signature) still holds.  Bounded by `budget`
+/// re-executions.
+pub fn shrink_vec<T: Clone>(items: &[T], fails: impl Fn(&[T]) -> bool, budget: usize) -> Vec<T> {
+    let mut cur: Vec<T> = items.to_vec();
+    let mut runs = 0usize;
+    let mut chunk = (cur.len() / 2).max(1);
+    loop {
+        let mut i = 0;
+        let mut progressed = false;
+        while i < cur.len() && runs < budget {
+            let end = (i + chunk).min(cur.len());
+            let mut cand = cur.clone();
+            cand.drain(i..end);
+            runs += 1;
+            if !cand.is_empty() && fails(&cand) {
+                cur = cand;
+                progressed = true;
+            } else {
+                i += chunk;
+            }
+        }
+        if runs >= budget || (chunk == 1 && !progressed) {
+            break;
+        }
+        chunk = if chunk > 1 { chunk / 2 } else { 1 };
+    }
+    cur
+}
